@@ -7,6 +7,11 @@ Ops (driver side in lean/NetaddrVerif/Driver/C19.lean):
   ieee_load oui|iab h:<hex>              create_index_from_registry + load_index (model: Registry.ouiPipeline / iabPipeline)
   ieee_genlookup oui|iab key h:<hex>     the same, then OUI(key) / IAB(key) reading that very text (index and registry
                                          file swapped in for the duration of the call)
+  iana_query_obj A:..|N:..|R:..          .info of ANY BaseIP object (IPAddress / IPNetwork / IPRange)   (model: Registry.queryObjD)
+  eui_info ver val h:<oui> h:<iab>       EUI(val, version=ver).oui / .iab / .info over a generated OUI registry and a generated
+                                         IAB registry that are the registries of a fresh interpreter (model: Registry.euiOui /
+                                         euiIab / euiInfo); the EUI objects come from common.make_eui, half of them built with
+                                         ANOTHER registered value, read (.oui / .iab / .info), then moved (value setter or e[i] = w)
 oracle-only: idxcheck (shipped index files against the loaded OUI_INDEX / IAB_INDEX and the text).
 
 Independent side: the four IANA XML files are re-read with xml.etree and normalised with own
@@ -21,6 +26,7 @@ import os
 import re
 import xml.etree.ElementTree as ET
 
+import common
 from common import Case, errname, plist, hexs
 
 import netaddr
@@ -38,7 +44,14 @@ RULE = ('iana_query: every record of the four shipped IANA registries (independe
         'without a (base 16) line included: load_index must raise ValueError); genlookup: generated registries swapped in '
         'for the shipped ones, every identifier of the text and two absent ones looked up with OUI()/IAB(); '
         'ieee_lookup: every IAB key of iab.idx, 2500 sampled OUI keys of oui.idx, the duplicated identifiers, and '
-        'unregistered neighbours; idxcheck: whole shipped index files. non-trivial = distinct case whose '
+        'unregistered neighbours; idxcheck: whole shipped index files; iana_query_obj: per registry record its own block (network '
+        'or range), the block widened by one address at either end, sub-blocks, networks with host bits, supernets, /32 (/128) '
+        'networks and one-address ranges at single-address records, ranges straddling the multicast block edges, the same '
+        'integers in the other family, random blocks near records (objects from common.make_net / make_range / make_addr); '
+        'eui_info: pairs of generated registries (OUI, IAB; the OUI text also carries the IAB prefixes for most pairs), EUI-48 '
+        'and EUI-64 values under registered / unregistered OUIs and IABs, in and outside the two IAB ranges, every object '
+        'from common.make_eui and half of them first built under another registered identifier, read, and moved by the value '
+        'setter or by word assignment. non-trivial = distinct case whose '
         'implementation output is not an error (registered identifier, non-empty answer or parsed registry)')
 
 PKG = os.path.dirname(netaddr.__file__)
@@ -254,6 +267,202 @@ def _lookup_case(kind, key, tag, spelling='int'):
     return Case(line, 'lookup/%s/%s/%s' % (kind, tag, spelling), ('lookup', kind, key, spelling))
 
 
+def _obj_tok(kind, ver, x, y):
+    if kind == 'A':
+        return 'A:%d:%d' % (ver, x)
+    return '%s:%d:%d:%d' % (kind, ver, x, y)
+
+
+def _ianaobj_case(kind, ver, x, y, tag):
+    return Case('iana_query_obj ' + _obj_tok(kind, ver, x, y), 'ianaobj/%s/%s' % (kind, tag), ('ianaobj', kind, ver, x, y))
+
+
+def _obj_bounds(kind, ver, x, y):
+    """first, last of the operand from its integers"""
+    if kind == 'A':
+        return x, x
+    if kind == 'R':
+        return x, y
+    w = 32 if ver == 4 else 128
+    size = 1 << (w - y)
+    first = x // size * size
+    return first, first + size - 1
+
+
+def _block_as_obj(ver, lo, hi):
+    """the block lo..hi as a network when it is one, else as a range"""
+    w = 32 if ver == 4 else 128
+    size = hi - lo + 1
+    if size & (size - 1) == 0 and lo % size == 0:
+        return ('N', ver, lo, w - (size.bit_length() - 1))
+    return ('R', ver, lo, hi)
+
+
+def _ianaobj_cases(rng, mult):
+    T = _xml_tables()
+    out = []
+
+    def add(kind, ver, x, y, tag):
+        m = M4 if ver == 4 else M6
+        w = 32 if ver == 4 else 128
+        if kind == 'N':
+            if 0 <= x <= m and 0 <= y <= w:
+                out.append(_ianaobj_case(kind, ver, x, y, tag))
+        elif kind == 'R':
+            if 0 <= x <= y <= m:
+                out.append(_ianaobj_case(kind, ver, x, y, tag))
+        elif 0 <= x <= m:
+            out.append(_ianaobj_case('A', ver, x, 0, tag))
+
+    for topic, ver in (('IPv4', 4), ('Multicast', 4), ('IPv6', 6), ('IPv6_unicast', 6)):
+        w = 32 if ver == 4 else 128
+        for lo, hi, _k in T[topic]:
+            variants = []
+            kind, _v, bx, by = _block_as_obj(ver, lo, hi)
+            variants.append((kind, bx, by, 'own-block'))
+            variants.append(('R', lo, hi, 'own-range'))
+            variants.append(('R', lo - 1, hi, 'first-1'))
+            variants.append(('R', lo, hi + 1, 'last+1'))
+            variants.append(('R', lo + (1 if hi > lo else 0), hi, 'inner-range'))
+            variants.append(('N', lo, w, 'host-net-at-first'))
+            variants.append(('N', hi, w, 'host-net-at-last'))
+            variants.append(('R', hi, hi, 'one-address-range'))
+            variants.append(('A', lo, 0, 'address-at-first'))
+            if kind == 'N':
+                variants.append(('N', rng.randint(lo, hi), by, 'own-block-host-bits'))
+                if by > 0:
+                    variants.append(('N', lo, by - 1, 'supernet'))
+                if by < w:
+                    variants.append(('N', rng.randint(lo, hi), rng.randint(by + 1, w), 'subnet'))
+            else:
+                a = rng.randint(lo, hi)
+                variants.append(('R', a, rng.randint(a, hi), 'sub-range'))
+            for k, x, y, tag in rng.sample(variants, min(len(variants), 2 + mult)):
+                add(k, ver, x, y, topic + '/' + tag)
+    for x, y, tag in ((MC_LO - 1, MC_LO, 'straddle-low'), (MC_LO, MC_HI, 'whole'), (MC_HI, MC_HI + 1, 'straddle-high'),
+                      (MC_LO, MC_LO, 'low'), (MC_HI, MC_HI, 'high'), (MC_LO - 1, MC_HI + 1, 'around'), (0, M4, 'everything')):
+        add('R', 4, x, y, 'mcast-edge/' + tag)
+    for x, y in ((MC_LO, 4), (MC_LO, 3), (MC_LO, 5), (MC_HI, 4), (MC_HI, 32), (MC_LO, 32), (MC_LO - 1, 32), (MC_HI + 1, 32), (0, 0)):
+        add('N', 4, x, y, 'mcast-edge/net')
+    add('N', 6, 0, 0, 'everything')
+    add('R', 6, 0, M6, 'everything')
+    # the same integers in the other family, and random blocks near records
+    for _ in range(150 * mult):
+        topic = rng.choice(('IPv4', 'Multicast', 'Multicast', 'IPv6', 'IPv6_unicast'))
+        ver = 4 if topic in ('IPv4', 'Multicast') else 6
+        w = 32 if ver == 4 else 128
+        lo, hi, _k = rng.choice(T[topic])
+        size = hi - lo + 1
+        near = (lo, w - (size.bit_length() - 1))
+        v, p = common.rand_block(rng, ver, near)
+        add('N', ver, v, p, 'near/' + topic)
+        a, b = sorted((rng.randint(max(0, lo - 3), hi + 3), rng.randint(max(0, lo - 3), hi + 3)))
+        add('R', ver, a, b, 'near/' + topic)
+        if ver == 4:
+            add('R', 6, lo, hi, 'v4-int-as-v6')
+        elif hi <= M4:
+            add('R', 4, lo, hi, 'v6-int-as-v4')
+    for ver, w in ((4, 32), (6, 128)):
+        for _ in range(100 * mult):
+            v, p = common.rand_block(rng, ver)
+            add('N', ver, v, p, 'random')
+            a, b = sorted((rng.getrandbits(w), rng.getrandbits(w)))
+            add('R', ver, a, b, 'random')
+    return out
+
+
+def _simple_rec(rng, kind, key):
+    """a plain well-formed record for identifier `key` (OUI: 24 bits; IAB: 36 bits)"""
+    eol = rng.choice((b'\n', b'\r\n'))
+    org = _phrase(rng, 1, 3)
+    while b'(hex)' in org or b'(base 16)' in org:
+        org = _phrase(rng, 1, 3)
+    if kind == 'oui':
+        p = key
+        b16 = ('%06X' % p).encode()
+    else:
+        p, x = key >> 12, key & 0xfff
+        b16 = ('%03X000-%03XFFF' % (x, x)).encode()
+    ids = ('%02X-%02X-%02X' % (p >> 16, (p >> 8) & 0xff, p & 0xff)).encode()
+    lines = [ids + b'   (hex)\t\t' + org, b16 + b'     (base 16)\t\t' + org]
+    for _ in range(rng.randint(0, 3)):
+        a = _phrase(rng, 1, 4)
+        while b'(hex)' in a or b'(base 16)' in a:
+            a = _phrase(rng, 1, 4)
+        lines.append(b'\t\t\t\t' + a)
+    lines.append(b'')
+    return (key, b''.join(l + eol for l in lines))
+
+
+IAB_PREFIXES = (0x0050c2, 0x40d855)
+
+
+def _euiinfo_cases(rng):
+    """one pair of generated registries and the EUI questions asked of it"""
+    co = _gen_registry(rng, 'oui')
+    ci = _gen_registry(rng, 'iab', iabpref=True)
+    oh, orecs = co.args[2], list(co.args[3])
+    ih, irecs = ci.args[2], list(ci.args[3])
+    mode = rng.randrange(4)          # 0: the OUI text knows neither IAB prefix; 1, 2: one of them; 3: both
+    for i, pfx in enumerate(IAB_PREFIXES):
+        if (mode >> i) & 1:
+            for _ in range(rng.choice((1, 1, 2))):
+                orecs.insert(rng.randint(0, len(orecs)), _simple_rec(rng, 'oui', pfx))
+        else:
+            orecs = [(k, r) for k, r in orecs if k != pfx]
+    if not orecs:
+        orecs = [_simple_rec(rng, 'oui', rng.getrandbits(24))]
+    if not any((k >> 12) in IAB_PREFIXES for k, _ in irecs):
+        irecs.append(_simple_rec(rng, 'iab', (rng.choice(IAB_PREFIXES) << 12) | rng.getrandbits(12)))
+    # only the last record of a text may lack its final newline
+    orecs = [(k, r if r.endswith(b'\n') or i == len(orecs) - 1 else r + b'\n') for i, (k, r) in enumerate(orecs)]
+    irecs = [(k, r if r.endswith(b'\n') or i == len(irecs) - 1 else r + b'\n') for i, (k, r) in enumerate(irecs)]
+    okeys = []
+    for k, _r in orecs:
+        if k not in okeys:
+            okeys.append(k)
+    ikeys = []
+    for k, _r in irecs:
+        if (k >> 12) in IAB_PREFIXES and k not in ikeys:
+            ikeys.append(k)
+
+    def eui_under(ver, ident, bits):
+        return (ident << (ver - bits)) | rng.getrandbits(ver - bits)
+
+    qs = []          # (ver, value, tag)
+    for ver in (48, 64):
+        for k in rng.sample(okeys, min(len(okeys), 3)):
+            qs.append((ver, eui_under(ver, k, 24), 'oui-registered'))
+        for k in rng.sample(ikeys, min(len(ikeys), 3)):
+            qs.append((ver, eui_under(ver, k, 36), 'iab-registered'))
+        for pfx in IAB_PREFIXES:
+            qs.append((ver, eui_under(ver, (pfx << 12) | rng.getrandbits(12), 36), 'iab-range'))
+        qs.append((ver, eui_under(ver, rng.getrandbits(24), 24), 'random-oui'))
+        if okeys:
+            qs.append((ver, eui_under(ver, okeys[0] ^ (1 << rng.randrange(24)), 24), 'oui-one-bit-off'))
+        if ikeys:
+            qs.append((ver, eui_under(ver, ikeys[0] ^ (1 << rng.randrange(12)), 36), 'iab-one-bit-off'))
+    # where the lived-in objects come from: EUIs under OTHER registered identifiers
+    homes = {48: [], 64: []}
+    for ver in (48, 64):
+        for k in okeys:
+            homes[ver].append(eui_under(ver, k, 24))
+        for k in ikeys:
+            homes[ver].append(eui_under(ver, k, 36))
+    out = []
+    od = oh + b''.join(r for _, r in orecs)
+    idt = ih + b''.join(r for _, r in irecs)
+    for n, (ver, v, tag) in enumerate(qs):
+        prev, route = None, 0
+        if rng.random() < 0.5 and homes[ver]:
+            prev = rng.choice(homes[ver])
+            route = rng.randrange(2)
+        line = 'eui_info %d %d %s %s' % (ver, v, _hexline(od), _hexline(idt))
+        out.append(Case(line, 'euiinfo/eui%d/%s/%s' % (ver, tag, 'fresh' if prev is None else ('moved-by-setter', 'moved-by-words')[route]),
+                        ('euiinfo', ver, v, prev, route, oh, tuple(orecs), ih, tuple(irecs))))
+    return out
+
+
 def corpus():
     cs = []
     for ver, v in ((4, 0), (4, M4), (4, MC_LO), (4, MC_LO - 1), (4, MC_HI), (4, MC_HI + 1), (4, (224 << 24) + 0x1ff),
@@ -269,6 +478,12 @@ def corpus():
         rec = eol.join([b'00-50-C2   (hex)\t\tACME CORPORATION', b'ABC000-ABCFFF     (base 16)\t\tACME CORPORATION',
                         b'\t\t\t\t1 MAIN STREET', b'\t\t\t\tSPRINGFIELD', b'\t\t\t\tUNITED STATES', b''])
         cs.append(_idx_case('iab', b'', ((0x0050c2abc, rec),), 'corpus'))
+    # .info of blocks: a /32 and a one-address range at a single-address multicast record (224.0.0.1), the multicast
+    # block itself and ranges straddling its edges, a network with host bits inside 10/8
+    for kind, ver, x, y in (('N', 4, MC_LO + 1, 32), ('R', 4, MC_LO + 1, MC_LO + 1), ('A', 4, MC_LO + 1, 0), ('N', 4, MC_LO, 4),
+                            ('R', 4, MC_LO - 1, MC_LO), ('R', 4, MC_HI, MC_HI + 1), ('N', 4, 0x0a010203, 8), ('N', 4, 0x0a010203, 7),
+                            ('N', 6, 0x20010db8 << 96, 32), ('R', 6, 0, M6), ('N', 4, 0, 0)):
+        cs.append(_ianaobj_case(kind, ver, x, y, 'corpus'))
     return cs
 
 
@@ -424,6 +639,11 @@ def generate(rng, tier):
                 cases.append(_pipeline_case(c))
             if i % 60 == 1 or i % 200 == 3:       # each such registry costs one fresh interpreter (see _genlookup)
                 cases += _genlookup_cases(rng, c)
+    # .info of blocks
+    cases += _ianaobj_cases(rng, mult)
+    # EUI.oui / .iab / .info over pairs of generated registries (one fresh interpreter per pair)
+    for _ in range(6 * mult):
+        cases += _euiinfo_cases(rng)
     # lookups against the shipped indices
     for kind, bits in (('iab', 36), ('oui', 24)):
         rows = _read_idx(kind + '.idx')
@@ -682,15 +902,163 @@ def _genlookup(kind, data, key):
     return _json.loads(line)
 
 
+def _tag(e):
+    if isinstance(e, NotRegisteredError):
+        return '!notRegistered'
+    en = errname(e)
+    return '!' + ('other' if en.startswith('other') else en)
+
+
+def _euiinfo_install(odata, idata):
+    """make the two generated texts THE registries of this process: index each with netaddr's parser, load the index
+    with load_index, swap index and text in for good (the caller is a process of its own).  Returns an error tag when
+    indexing / loading fails (the OUI text first), else None"""
+    import netaddr.eui as E
+    new = {}
+    for kind, data, klass in (('oui', odata, ieee.OUIIndexParser), ('iab', idata, ieee.IABIndexParser)):
+        out = io.StringIO()
+        d = {}
+        try:
+            ieee.create_index_from_registry(_peeked(data), out, klass)
+            ieee.load_index(d, io.BytesIO(out.getvalue().encode('utf-8')))
+        except Exception as e:
+            return _tag(e)
+        new[kind] = d
+    ieee.OUI_INDEX.clear()
+    ieee.OUI_INDEX.update(new['oui'])
+    ieee.IAB_INDEX.clear()
+    ieee.IAB_INDEX.update(new['iab'])
+    E._importlib_resources = _Resources(_Resources(E._importlib_resources, 'oui.txt', odata), 'iab.txt', idata)
+    return None
+
+
+def _reg_text(r):
+    return '%d/%d/%s' % (r['offset'], r['size'], _show_parsed(r['org'], list(r['address'])))
+
+
+def _euiinfo_here(ver, v, prev, route):
+    """EUI(v, version=ver).oui / .iab / .info in a process whose registries are the generated ones.  The object comes
+    from common.make_eui (half of those are lived-in already); with `prev` it is first built under ANOTHER identifier,
+    asked everything (errors ignored), and only then moved to v - by the value setter or word by word"""
+    from netaddr import EUI
+    if prev is None:
+        e = common.make_eui(v, ver)
+    else:
+        e = common.make_eui(prev, ver)
+        for f in (lambda: e.oui.registration(), lambda: e.iab, lambda: e.info, lambda: e.is_iab(), lambda: e.oui.reg_count,
+                  lambda: e.info['OUI'], lambda: e.iab.registration()):
+            try:
+                f()
+            except Exception:
+                pass
+        if route == 0:
+            e.value = v
+        else:
+            common.COUNTS['object/eui:moved-by-word-assignment'] += 1
+            ws, nw = e.dialect.word_size, e.dialect.num_words
+            for i in range(nw):
+                e[i] = (v >> (ws * (nw - 1 - i))) & ((1 << ws) - 1)
+                if i == 0:
+                    try:
+                        e.oui, e.info
+                    except Exception:
+                        pass
+    if int(e) != v or e.version != ver:
+        return '!harness:object is EUI-%d %#x, wanted EUI-%d %#x' % (e.version, int(e), ver, v)
+    ids = []
+    try:
+        o = e.oui
+        if o is None:
+            so = '-'
+        else:
+            so = ';'.join(_reg_text(o.registration(i)) for i in range(o.reg_count))
+            ids.append('oui=%d' % int(o))
+    except Exception as ex:
+        so = _tag(ex)
+    try:
+        b = e.iab
+        if b is None:
+            sb = '-'
+        else:
+            sb = _reg_text(b.registration())
+            ids.append('iab=%d' % int(b))
+    except Exception as ex:
+        sb = _tag(ex)
+    try:
+        info = e.info
+        keys = sorted(vars(info))
+        sf = 'OUI=' + _reg_text(info['OUI'])
+        if info['IAB'] is not None:
+            sf += ';IAB=' + _reg_text(info['IAB'])
+        ids.append('keys=' + '+'.join(keys))
+        ids.append('isiab=%s' % bool(e.is_iab()))
+    except Exception as ex:
+        sf = _tag(ex)
+    return so + '|' + sb + '|' + sf + '#' + ','.join(ids)
+
+
+_EUIWORKER = {'key': None, 'proc': None}
+
+_EUIWORKER_SRC = r"""
+import sys, json
+sys.path.insert(0, sys.argv[1])          # harness
+import common                            # puts the netaddr under test on sys.path
+from props import c19
+err = c19._euiinfo_install(bytes.fromhex(sys.argv[2]), bytes.fromhex(sys.argv[3]))
+for line in sys.stdin:
+    ver, v, prev, route = json.loads(line)
+    try:
+        res = err if err is not None else c19._euiinfo_here(ver, int(v), None if prev is None else int(prev), route)
+        print(json.dumps(res), flush=True)
+    except BrokenPipeError:
+        break
+"""
+
+
+def _euiinfo(odata, idata, ver, v, prev, route):
+    """one interpreter per pair of generated registries (they are its registries from the first import to the end);
+    all the questions about one pair go to that interpreter"""
+    import subprocess
+    import sys as _sys
+    import json as _json
+    w = _EUIWORKER
+    if w['key'] != (odata, idata) or w['proc'] is None or w['proc'].poll() is not None:
+        if w['proc'] is not None:
+            try:
+                w['proc'].stdin.close()
+                w['proc'].wait(timeout=5)
+            except Exception:
+                w['proc'].kill()
+        here = os.path.dirname(os.path.dirname(os.path.abspath(__file__)))
+        w['proc'] = subprocess.Popen([_sys.executable, '-c', _EUIWORKER_SRC, here, odata.hex(), idata.hex()],
+                                     stdin=subprocess.PIPE, stdout=subprocess.PIPE, universal_newlines=True, env=os.environ.copy())
+        w['key'] = (odata, idata)
+    w['proc'].stdin.write(_json.dumps([ver, str(v), None if prev is None else str(prev), route]) + '\n')
+    w['proc'].stdin.flush()
+    line = w['proc'].stdout.readline()
+    if not line:
+        return '!harness:euiinfo worker died'
+    return _json.loads(line)
+
+
 def _show_parsed(org, addr):
     return ('-' if not org else hexs(org)) + '/' + plist([hexs(a) for a in addr])
 
 
 def impl(c):
     a = c.args
-    if a[0] == 'iana':
-        _, ver, v = a
-        info = IPAddress(v, ver).info
+    if a[0] in ('iana', 'ianaobj'):
+        if a[0] == 'iana':
+            _, ver, v = a
+            info = IPAddress(v, ver).info
+        else:
+            _, kind, ver, x, y = a
+            o = (common.make_addr(ver, x) if kind == 'A' else common.make_net(ver, x, y) if kind == 'N'
+                 else common.make_range(ver, x, y))
+            try:
+                info = o.info
+            except Exception as e:
+                return '!' + errname(e)
         maps = _idmaps()
         items, attrs, keys = [], [], []
         for topic in TOPICS:
@@ -728,6 +1096,9 @@ def impl(c):
     if a[0] == 'genlookup':
         _, kind, header, recs, key = a
         return _genlookup(kind, header + b''.join(r for _, r in recs), key)
+    if a[0] == 'euiinfo':
+        _, ver, v, prev, route, oh, orecs, ih, irecs = a
+        return _euiinfo(oh + b''.join(r for _, r in orecs), ih + b''.join(r for _, r in irecs), ver, v, prev, route)
     if a[0] == 'lookup':
         _, kind, key = a[:3]
         spelling = a[3] if len(a) > 3 else 'int'
@@ -755,7 +1126,7 @@ def impl(c):
 
 
 def equivalent(c, got, model):
-    if c.args[0] == 'iana':
+    if c.args[0] in ('iana', 'ianaobj', 'euiinfo'):
         return got.split('#')[0] == model
     return got == model
 
@@ -789,6 +1160,72 @@ def oracle(c, got):
                 return '.info[%r] is %s but the registry files give {%s}' % (topic, it, e)
             if at != (it if it != '-' else '!other'):
                 return '.info.%s gives %s while .info[%r] gives %s' % (topic, at, topic, it)
+        return None
+    if a[0] == 'ianaobj':
+        _, kind, ver, x, y = a
+        first, last = _obj_bounds(kind, ver, x, y)
+        T = _xml_tables()
+        exp = []
+        for topic in TOPICS:
+            tv = 4 if topic in ('IPv4', 'Multicast') else 6
+            if tv != ver or (topic == 'Multicast' and not (MC_LO <= first and last <= MC_HI)):
+                exp.append('')
+                continue
+            # a record is reported iff its published block or range contains the WHOLE operand; a record published as a
+            # single address is compared by equality with the operand, which only an IPAddress can satisfy
+            exp.append(','.join(sorted('%d-%d' % (lo, hi) for lo, hi, k in T[topic] if lo <= first and last <= hi and
+                                       (kind == 'A' or not (topic == 'Multicast' and '-' not in k)))))
+        exp = ';'.join(exp)
+        if '#' not in got:
+            return '.info failed: %s' % got
+        have = got.split('#', 1)[1]
+        if have != exp:
+            return '.info of %s %d..%d (IPv%d) returned the records with ranges {%s} (IPv4;IPv6;IPv6_unicast;Multicast), the registry files give {%s}' % (
+                {'A': 'address', 'N': 'network', 'R': 'range'}[kind], first, last, ver, have, exp)
+        items, attrs = [z.split(';') for z in got.split('#', 1)[0].split('|')]
+        for topic, e, it, at in zip(TOPICS, exp.split(';'), items, attrs):
+            if (it == '-') != (e == '') or it == '[]':
+                return '.info[%r] is %s but the registry files give {%s}' % (topic, it, e)
+            if at != (it if it != '-' else '!other'):
+                return '.info.%s gives %s while .info[%r] gives %s' % (topic, at, topic, it)
+        return None
+    if a[0] == 'euiinfo':
+        _, ver, v, prev, route, oh, orecs, ih, irecs = a
+
+        def regs(header, recs, key):
+            off = len(header)
+            out = []
+            for k, rec in recs:
+                if k == key:
+                    org, addr = _ref_record(rec.decode('utf-8'))
+                    out.append('%d/%d/%s' % (off, len(rec), _show_parsed(org, addr)))
+                off += len(rec)
+            return out
+
+        ko, ki = v >> (ver - 24), v >> (ver - 36)
+        ro = regs(oh, orecs, ko)
+        in_iab = ko in IAB_PREFIXES
+        ri = regs(ih, irecs, ki) if in_iab else []
+        eo = ';'.join(ro) if ro else '!notRegistered'
+        ei = '-' if not in_iab else (ri[0] if ri else '!notRegistered')
+        if not ro or (in_iab and not ri):
+            ef = '!notRegistered'
+        else:
+            ef = 'OUI=' + ro[0] + (';IAB=' + ri[0] if in_iab else '')
+        exp = eo + '|' + ei + '|' + ef
+        have, _sep, ids = got.partition('#')
+        if have != exp:
+            return 'EUI-%d %#x over generated registries: .oui | .iab | .info = %s, the records carrying OUI %#x / IAB %#x give %s' % (
+                ver, v, have[:400], ko, ki, exp[:400])
+        want = []
+        if ro:
+            want.append('oui=%d' % ko)
+        if in_iab and ri:
+            want.append('iab=%d' % ki)
+        if ro and (ri or not in_iab):
+            want += ['keys=' + ('IAB+OUI' if in_iab else 'OUI'), 'isiab=%s' % in_iab]
+        if ids != ','.join(want):
+            return 'EUI-%d %#x: identifiers / keys of the answers are %s, expected %s' % (ver, v, ids, ','.join(want))
         return None
     if a[0] == 'index':
         _, kind, header, recs = a
@@ -888,6 +1325,16 @@ def repro(c):
     a = c.args
     if a[0] == 'iana':
         return "from netaddr import IPAddress; vars(IPAddress(%d, %d).info)" % (a[2], a[1])   # dict(info) raises TypeError on Python 3
+    if a[0] == 'ianaobj':
+        _, kind, ver, x, y = a
+        mk = ('IPAddress(%d, %d)' % (x, ver) if kind == 'A' else 'IPNetwork((%d, %d), version=%d)' % (x, y, ver) if kind == 'N'
+              else 'IPRange(IPAddress(%d, %d), IPAddress(%d, %d))' % (x, ver, y, ver))
+        return "from netaddr import *; vars(%s.info)" % mk
+    if a[0] == 'euiinfo':
+        od = a[5] + b''.join(r for _, r in a[6])
+        idt = a[7] + b''.join(r for _, r in a[8])
+        return ("import sys; sys.path.insert(0, 'harness'); sys.path.insert(0, 'harness/props'); import c19; "
+                "c19._euiinfo(%r, %r, %d, %d, %r, %d)" % (od, idt, a[1], a[2], a[3], a[4]))
     if a[0] == 'index':
         data = a[2] + b''.join(r for _, r in a[3])
         return ("import io; from netaddr.eui import ieee; from netaddr.core import Subscriber; "
